@@ -416,8 +416,6 @@ class C08(Check):
         except Exception as exc:
             return crash(exc, "rule tree", classes=classes, nontrivial=nontrivial, features=feats)
         for part, got_part in between:
-            if shape_features(part["tree"]) & {"sibling_refinement_shadowing"}:
-                continue
             lo_p, up_p, _ = self.oracle(part, objs)
             if (lo_p - got_part) or (got_part - up_p):
                 return fail("wrong_conclusions_of_partial_tree",
